@@ -176,14 +176,30 @@ def load_baseline(prop: str) -> dict:
 
 
 def matches_known(o: dict, k: dict) -> bool:
-    """A listed finding covers a failed obligation only for the specific failure it describes:
-    for bounded checks the failing sub-check labels must all be among `checks_allowed`."""
-    allowed = k.get('checks_allowed')
-    if not allowed:
+    """A listed finding covers a failed obligation only for the specific failure it describes.
+    For bounded checks every reported failure record must match the finding:
+      checks_allowed  - its label (check/clause) is one of these strings;
+      checks_contains - its label contains one of these substrings;
+      case_contains   - the text of its `case` contains all of these substrings."""
+    keys = [x for x in ('checks_allowed', 'checks_contains', 'case_contains') if k.get(x)]
+    if not keys:
         return True
     fails = ((o.get('model') or {}).get('failures')) or []
-    labels = {str(f.get('check') or f.get('clause') or '') for f in fails if isinstance(f, dict)}
-    return bool(labels) and labels <= set(allowed)
+    if not fails:
+        return False
+    for f in fails:
+        if not isinstance(f, dict):
+            return False
+        label = str(f.get('check') or f.get('clause') or '')
+        if k.get('checks_allowed') and label not in k['checks_allowed']:
+            return False
+        if k.get('checks_contains') and not any(sub in label for sub in k['checks_contains']):
+            return False
+        if k.get('case_contains'):
+            txt = json.dumps(f.get('case'), default=str) if not isinstance(f.get('case'), str) else f.get('case')
+            if not all(sub in txt for sub in k['case_contains']):
+                return False
+    return True
 
 
 def finish(prop, tier, seed, pm, funcs: list[dict], extras: list[Extra], t0, update_baseline=False) -> int:
